@@ -33,6 +33,10 @@ THEOREMS = [
     "MCHap.C03.acp_sum_ploidy",
     "MCHap.C03.afp_sum_one",
     "MCHap.C03.gpm_le_spm_le_one",
+    "MCHap.C03.lik_nonneg",
+    "MCHap.C03.callPrior_nonneg",
+    "MCHap.C03.posterior_nonneg",
+    "MCHap.C03.gpm_le_spm_le_one_of_inputs",
 ]
 RULE = ("cases: random known-haplotype sets (1..6 haplotypes), ploidy 1..6, frequencies {None, flat, skewed, zeros}, inbreeding "
         "{0,.01,.25,.5,.9}, reads with gaps and counts (depth 0..6 unique reads). Non-trivial: >= 3 genotypes with pairwise different "
